@@ -36,6 +36,11 @@ type PluginCfg struct {
 	ProbeWriteInClose bool
 	// CapsFn overrides Caps per call when set.
 	CapsFn func(call int) []corebgp.Capability
+	// SharedCaps (with NoNonce): GetCapabilities returns the stored Caps slice itself
+	// on every call, as a plugin that keeps its list in a field does. The monitor
+	// keeps a deep copy and reports a list that changed between calls: nobody but
+	// corebgp has touched it.
+	SharedCaps bool
 }
 
 const (
@@ -116,6 +121,7 @@ type PeerMon struct {
 	mu       sync.Mutex
 	state    int
 	sealed   bool
+	pristine []corebgp.Capability
 	GetCaps  []GetCapsCall
 	Opens    []OpenCall
 	Sessions []*Session
@@ -201,6 +207,23 @@ func (m *PeerMon) GetCapabilities(peer corebgp.PeerConfig) []corebgp.Capability 
 	caps := m.Cfg.Caps
 	if m.Cfg.CapsFn != nil {
 		caps = m.Cfg.CapsFn(call)
+	}
+	if m.Cfg.SharedCaps && m.Cfg.NoNonce && m.Cfg.CapsFn == nil {
+		if m.pristine == nil {
+			for _, c := range caps {
+				m.pristine = append(m.pristine, corebgp.Capability{Code: c.Code, Value: append([]byte(nil), c.Value...)})
+			}
+		} else {
+			same := len(caps) == len(m.pristine)
+			for i := 0; same && i < len(caps); i++ {
+				same = caps[i].Code == m.pristine[i].Code && string(caps[i].Value) == string(m.pristine[i].Value)
+			}
+			if !same {
+				m.violate("the capability list the plugin keeps and returns from GetCapabilities was modified by corebgp after call %d: now %v, the plugin's list is %v", call-1, caps, m.pristine)
+			}
+		}
+		m.mu.Unlock()
+		return caps
 	}
 	m.mu.Unlock()
 	out := append([]corebgp.Capability(nil), caps...)
